@@ -21,7 +21,26 @@ ASSUMPTIONS = [
 ENUM_CLASSES = ["Node", "SlotLM", "EqNode", "LenNode", "ListNode", "TupleNode"]
 
 
+def check_deep(case, acc):
+    """A trunk of case['depth'] nodes with a small crown on top: levels at absolute depth > 256 that hold several nodes."""
+    make = nodes.factory(case["cls"])
+    trunk = [make(0)]
+    for i in range(1, case["depth"]):
+        node = make(i)
+        node.parent = trunk[-1]
+        trunk.append(node)
+    crown = forest.build_tree([[[], []], [[]], []], lambda i: make(case["depth"] + i))
+    crown[0].parent = trunk[-1]
+    tree = trunk + crown
+    labels = forest.Labels(tree)
+    for start in (0, case["depth"] - 2, case["depth"]):
+        _once(dict(case, start=start), acc, tree, labels)
+    acc.tag("deep_tree_cases")
+
+
 def check_case(case, acc):
+    if case.get("kind") == "deep":
+        return check_deep(case, acc)
     make = nodes.factory(case["cls"])
     tree = forest.build_tree(case["shape"], make, via=case.get("via", "parent"))
     labels = forest.Labels(tree)
@@ -132,10 +151,17 @@ def plan(tier, seed):
     examples = 300 if tier == "quick" else 5000
     tasks = [{"engine": "enum", "max_nodes": max_nodes, "index": i, "count": nshards} for i in range(nshards)]
     tasks += [{"engine": "hyp", "examples": examples, "seed": seed * 1000 + i} for i in range(nshards)]
+    tasks += [{"engine": "deep", "depth": d, "cls": c} for d in ((270,) if tier == "quick" else (130, 270, 400)) for c in ("Node", "SlotLM")]
     return tasks
 
 
 def run_task(task, acc):
+    if task["engine"] == "deep":
+        case = {"kind": "deep", "depth": task["depth"], "cls": task["cls"]}
+        exc = acc.evaluate(check_case, case, enumerated=False)
+        if exc is not None:
+            acc.add_violation(case, exc)
+        return
     if task["engine"] == "enum":
         acc.run_enum(check_case, _enum_cases(task["max_nodes"], task["index"], task["count"]))
     else:
